@@ -60,7 +60,9 @@ func genErrM(rt *rapid.T) *dyn.ErrM {
 		e.ErrorDetailType = sp("com.example.Details")
 	}
 	e.Details = rapid.IntRange(0, 3).Draw(rt, "hasDet") == 0
-	return e
+	// root module: its ErrorResponse has only status / message / exceptionClass / stackTrace; the other fields cannot
+	// be returned by resource code there and are cleared (no-op for v2; the draws above stay the same)
+	return e.Restrict()
 }
 
 func defaultStatus(mi *dyn.MethodInfo) int {
